@@ -253,3 +253,53 @@ CLAIMS = {
 
 NOT_APPLICABLE = {}
 HOOK_COMMITS = ["2121f06", "2905ba4", "177d1bb"]
+
+
+# ---------------------------------------------------------------------------------------------------------------------
+# Second-round extensions (DESIGN.md section 17): appended to the descriptions above
+def _extend(pid, text=None, note=None):
+    if text:
+        CLAIMS[pid]["text"] += " " + text
+    if note:
+        CLAIMS[pid]["note"] = note
+
+
+_extend("C01", "One caller-owned evidence dictionary per case is reused for all configurations and must come back unchanged; the shape with two "
+        "children of the same three parents (factor pairs sharing three variables in rotated order) is part of the quick tier.")
+_extend("C02", "Further model kinds: junction trees written down by hand with independently permuted clique variable orders, Markov networks with "
+        "3-variable sepsets (k5m, wheel5, core3x3) and Markov networks whose potentials are all scaled by 1e-7 (normalised answers only); a crash "
+        "inside calibrate is a verdict (raised event); the model is unchanged by calibration and queries (frame event).")
+_extend("C03", "BeliefPropagation.map_query is also asked right after max_calibrate() / calibrate() on the shared engine.")
+_extend("C04", "Equality is asked on re-labelled copies (rotated state orders, shuffled axes) as well and must not depend on them. Factor sets "
+        "(pgmpy.factors.FactorSet) are a second object store (spec/Gen_C04S.tla: value-semantic sets of factors; product / divide / marginalize / "
+        "copy in both variants; every live set compared after every step); one pool has 4 variables with nested 4- and 3-variable scopes.")
+_extend("C05", "Validation defects include a child's view listing the parent's states in another ORDER (state_order).")
+_extend("C06", "Dirichlet priors are also handed over as caller-owned float arrays; all prior arguments and data frames must come back unchanged and "
+        "a repeated call with the same objects must give the same estimates.")
+_extend("C07", "Also: the Gibbs chain itself is replayed draw by draw from the logged kernels (sweep events); partial_samples columns must come back "
+        "row by row for input frames with non-default indices; simulate() with do / evidence / virtual evidence / missing values; the same seeded "
+        "calls under two PYTHONHASHSEEDs must give the same frames (xrepro events); numpy's global generator is perturbed between the two calls of "
+        "every reproducibility pair; 30% of the traces use integer state names that collide with state numbers; forward / rejection / "
+        "likelihood-weighted sampling and simulate are also recorded under the torch backend (float32: fractions snapped to denominators <= 4000).",
+        note="numpy's generator is trusted to draw from the p it is given; <=5 nodes, card<=3, zero entries and latent sets included; Gibbs events on numpy only.")
+_extend("C08", "Trace_C08 is a state machine over the object's CURRENT graph: edit events (add_edge with its acyclicity precondition, remove_edge, "
+        "remove_node, add_node, do) between query batches, the graph read back after every edit, and the earlier questions asked again after it; "
+        "NaiveBayes star models (own active_trail_nodes / local_independencies + inherited API) are recorded as well; node names are str / int "
+        "(incl. 0 and > 256) / tuples handed over as equal-but-not-identical objects.")
+_extend("C10", "Column labels are strings or small integers that coincide with level positions; the data frame must be unchanged by scoring.")
+_extend("C12", "The conditional-independence queries build_skeleton puts to the oracle are recorded and validated by TLC as a behaviour of the "
+        "skeleton machine (Trace_C12.tla: surviving edge, set size = level, set inside the right adjacency, complete levels, no skipped level, no "
+        "early stop, returned skeleton and separating sets = the machine's).",
+        note="Exhaustive on 4 labelled nodes + 12 (quick) / 43 (thorough) five-node ground truths; CI answers are exact d-separation; max_cond_vars in "
+             "{maximal degree of the ground truth (the statement's bound), +1, number of nodes}.")
+_extend("C13", "Every case is run under string names (full API) and once more under int or tuple names (do, query, get_minimal_adjustment_set); the "
+        "criterion API enforces string names by design.")
+_extend("C14", "Instances include two different factors over the same scope; every source model must be unchanged by every conversion (frame events).")
+_extend("C16", "Further question kinds: the engine operations calibrate / max_calibrate (BeliefPropagation) and seeded forward / likelihood-weighted / "
+        "rejection sampling calls on a shared BayesianModelSampling engine, whose answer is specified as 'what a fresh engine answers'. "
+        "CausalInference is replayed with int and tuple names and under torch as well. The purity clause for scoring / estimation / search / export / "
+        "conversion calls is checked by deep snapshots inside C02, C04, C06, C08, C09, C10, C11, C13, C14, C19, C20.",
+        note="Histories of length 3 on 6-11 instances; torch compared at 1e-6.")
+_extend("C17", "An HMM-shaped template (one interface variable, two observation variables) gets a third of the replay budget for smoothing with "
+        "evidence on two observation variables in two slices.")
+_extend("C19", "pearsonr is asked again on the SAME DataFrame object after its rows were reordered in place; data frames must be unchanged by the tests.")
